@@ -15,6 +15,7 @@
 (*                                            of chain lookups it made       *)
 (*   force {t0, t1}     recv {got} (non-blocking engine read)                *)
 (*   await {got, t0, t1} blocking engine read (30 s watchdog when owed)      *)
+(*   blocked {call}     Queue / Force did not return within 30 s              *)
 (*   sleep {ms}         done {t0, t1, pending} Done, then a wait past the    *)
 (*                                            pending deadline               *)
 (*   inner {cb}         a Queue call made from inside Mempool.Len, i.e.      *)
@@ -96,6 +97,9 @@ TDone ==     \* T4: nothing is delivered after Done returned
   /\ owed' = FALSE
   /\ diag' = Name(T.len1 = T.len0, "notified-after-done")
 
+(* Queue / Force did not return within the watchdog although nobody reads the inbox: they must never block *)
+TBlocked == Ev("blocked") /\ UNCHANGED <<cap, owed, owedLo, lqLo, lqHi, swallowed>> /\ diag' = {"call-blocked"}
+
 (* re-entrancy scenarios: the inner call is made while the flag is still held although the notification has already
    been sent; the monitor says nothing is owed, so by T3 the call should be effective.  What the code does is recorded
    (KF_X02_swallowed) and validation continues. *)
@@ -106,7 +110,7 @@ TInner ==
   /\ IF KF_X02_swallowed THEN PrintT(<<"KF_HIT", "queue-swallowed-between-send-and-flag-release", l>>) ELSE TRUE
   /\ diag' = {}
 
-TraceNext == TReset \/ TQueue \/ TAwait \/ TForce \/ TRecv \/ TSleep \/ TDone \/ TInner
+TraceNext == TBlocked \/ TReset \/ TQueue \/ TAwait \/ TForce \/ TRecv \/ TSleep \/ TDone \/ TInner
 TraceSpec == TraceInit /\ [][TraceNext]_tvars
 
 DiagEmpty == diag = {}
